@@ -255,3 +255,27 @@ class PowerBoundsCalculate:
 def datetime_min():
     import datetime as _dt
     return _dt.datetime.min.replace(tzinfo=_dt.timezone.utc)
+
+
+# ----------------------------------------------------------------- the distributor's view of a battery group
+BatDataT = Rec("ext:frequenz.client.microgrid.BatteryData", component_id=Int, capacity=Real, soc=Real,
+               soc_upper_bound=Real, soc_lower_bound=Real, power_inclusion_lower_bound=Real,
+               power_exclusion_lower_bound=Real, power_exclusion_upper_bound=Real, power_inclusion_upper_bound=Real)
+
+
+@contract(f"{ALG}:AggregatedBatteryData.__init__")
+class AggregatedInit:
+    """C17: the bounds the distributor enforces for a group of batteries behind one inverter set are aggregated over
+    ALL the batteries of the group - the same batteries the pool's advertised bounds are computed from - whatever
+    their capacity or state of charge."""
+    self_shape = Obj(f"{ALG}:AggregatedBatteryData")
+    shapes = dict(batteries=FixedList(BatDataT, BatDataT))
+    use = {f"{ALG}:_aggregate_battery_power_bounds": f"{ALG}:_aggregate_battery_power_bounds#n2"}
+    modifies = ["self"]
+    ensures = dict(
+        inclusion_is_sum_over_all="self.power_bounds.inclusion_lower == sum(b.power_inclusion_lower_bound for b in batteries)"
+                                  " and self.power_bounds.inclusion_upper == sum(b.power_inclusion_upper_bound for b in batteries)",
+        exclusion_is_extreme_times_count="self.power_bounds.exclusion_upper == max(b.power_exclusion_upper_bound for b in batteries) * 2"
+                                         " and self.power_bounds.exclusion_lower == min(b.power_exclusion_lower_bound for b in batteries) * 2",
+        capacity_is_sum="self.capacity == sum(b.capacity for b in batteries)",
+    )
